@@ -150,6 +150,23 @@ func (e *evaluator) stream(m *httpgen.Msg, client bool, lv level) {
 		}
 		c.Every = 0
 		c.Lite = true
+		// an allocator that relocates a buffer when an append outgrows its (exact) capacity, as
+		// mempool.NewAligned does between size classes: the parser must keep the handle Append
+		// returns. Multi-read segmentations only (one cut never outgrows a carry-over twice).
+		mv := &httpgen.Case{Stream: m.B, Client: client, Mode: mode, ReadLimit: -1, Policy: track.Exact, Lite: true, Move: true}
+		for _, k := range []int{1, 2, 5} {
+			if n > k {
+				mv.Every = k
+				e.compare(refs[track.Exact], mv, "moving-allocator-pieces", m.Desc)
+			}
+		}
+		mv.Every = 0
+		if lv.double && n <= 160 {
+			httpgen.DoubleCuts(n, m.Marks, 64, func(cuts []int) {
+				mv.Cuts = cuts
+				e.compare(refs[track.Exact], mv, "moving-allocator-double-cut", m.Desc)
+			})
+		}
 		if lv.double {
 			all := httpgen.DoubleCuts(n, m.Marks, 160, func(cuts []int) {
 				c.Cuts = cuts
